@@ -5,6 +5,7 @@
 #define T_POLICY P_FIFO
 #define T_TTL 0
 #define T_PEEK 0
+#define T_PEEK_KIND 0
 #define T_CAPPED 1
 #define T_PURGE 0
 #define T_HAS_CLEAN 0
